@@ -199,11 +199,20 @@ static std::vector<Call> ext_calls()
         {M_INTT, 2, 0, 1, 3, 1}, {M_INTT, 8, 0, 2, 2, 1}, {M_INTT, 16, 0, 1, 3, 1},
     };
 }
+// extendPol with large blow-up factors (16, 32) next to small ones on the same extended sizes: a helper or a key derived from
+// (N_Extended, blow-up) must distinguish all of them
+static std::vector<Call> blowup_calls()
+{
+    return {
+        {M_EXT, 1, 16, 1, 3, 1}, {M_EXT, 2, 32, 1, 3, 1}, {M_EXT, 1, 32, 2, 2, 1}, {M_EXT, 32, 32, 1, 3, 1}, {M_EXT, 16, 16, 1, 3, 1},
+        {M_EXT, 16, 32, 1, 3, 1}, {M_EXT, 8, 16, 2, 3, 2}, {M_EXT, 4, 32, 1, 2, 1},
+    };
+}
 static std::vector<u64> big_out(NTT_Goldilocks &o, const Call &c) { return do_call(o, c); }
 static void deep_history(const Cfg &cfg, const std::vector<Call> &A, const std::vector<int> &hist)
 {
     omp_set_num_threads(cfg.base_omp);
-    std::string cs_ = fmt("deep=%d D=%llu nthreads=%u hist=%s", cfg.ext > 1 ? 3 : A.size() == small_calls().size() ? 2 : 1, (unsigned long long)cfg.D, cfg.nthreads, histstr(A, hist).c_str()) + (cfg.ext > 1 ? fmt(" ext=%d", cfg.ext) : std::string());
+    std::string cs_ = fmt("deep=%d D=%llu nthreads=%u hist=%s", cfg.ext > 1 ? 3 : (A.size() == blowup_calls().size() && A[0].next == 16 && A[0].n == 1) ? 5 : A.size() == small_calls().size() ? 2 : 1, (unsigned long long)cfg.D, cfg.nthreads, histstr(A, hist).c_str()) + (cfg.ext > 1 ? fmt(" ext=%d", cfg.ext) : std::string());
     std::vector<u64> got, fresh;
     {
         NTT_Goldilocks o(cfg.D, cfg.nthreads, cfg.ext);
@@ -343,7 +352,7 @@ int main(int argc, char **argv)
             Cfg cfg{cu(m, "D"), (unsigned)cu(m, "nthreads"), 4};
             cfg.ext = (int)cu(m, "ext", 1);
             g_deepK = cfg.D / 2;
-            std::vector<Call> A = cu(m, "deep", 0) == 3 ? ext_calls() : cu(m, "deep", 0) == 2 ? small_calls() : big_calls();
+            std::vector<Call> A = cu(m, "deep", 0) == 5 ? blowup_calls() : cu(m, "deep", 0) == 3 ? ext_calls() : cu(m, "deep", 0) == 2 ? small_calls() : big_calls();
             std::vector<int> hist;
             for (u64 x : culist(m, "hist")) hist.push_back((int)x);
             ChildResult r = run_child([&](FILE *f) { dup2(fileno(f), 1); rep().reset(); deep_history(cfg, A, hist); rep().flush(); fflush(stdout); }, 300);
@@ -520,6 +529,26 @@ int main(int argc, char **argv)
                 nontriv += (long long)EH.size() - (long long)EA.size();
             }
             printf("INFO deep: all %zu histories up to depth 3 over %zu calls on objects constructed with extension 2, 4, 8\n", EH.size(), EA.size());
+        }
+        {
+            // large blow-up factors: all histories up to depth 3 over eight extendPol calls on an object of domain 32
+            std::vector<Call> BA = blowup_calls();
+            std::vector<std::vector<int>> BH, lvl = {{}};
+            for (int d = 1; d <= 3; d++)
+            {
+                std::vector<std::vector<int>> nx;
+                for (auto &h : lvl) for (int c = 0; c < (int)BA.size(); c++) { auto g = h; g.push_back(c); nx.push_back(g); }
+                for (auto &h : nx) BH.push_back(h);
+                lvl = nx;
+            }
+            Cfg bcfg{32, 3, 4};
+            isolated_for((long)BH.size(), args.jobs, 64, [&](long i) { deep_history(bcfg, BA, BH[i]); },
+                         [&](long i, const ChildResult &r) {
+                             rep().viol(fmt("C19.%s.deep.%s", crash_sig(r).c_str(), mn(BA[BH[i].back()].mode)), fmt("deep=5 D=32 nthreads=3 hist=%s", histstr(BA, BH[i]).c_str()), err_tail(r));
+                         }, 300);
+            total_states += (long long)BH.size();
+            nontriv += (long long)BH.size() - (long long)BA.size();
+            printf("INFO deep: all %zu histories up to depth 3 over %zu extendPol calls with blow-up factors 1..32\n", BH.size(), BA.size());
         }
         {
             // object lifetimes
